@@ -599,12 +599,14 @@ def spawn_layer_in_subprocess(result, script_parts, options, features,
         errlines = stderr_buf[0].splitlines()
         erriter = iter(errlines)
         nfail = nerr = 0
+        got_header = False
         for line in erriter:
             try:
                 result.num_ran, nfail, nerr = map(int, line.strip().split())
             except ValueError:
                 continue
             else:
+                got_header = True
                 break
         else:
             errmsg = "Could not communicate with subprocess!"
@@ -625,20 +627,35 @@ def spawn_layer_in_subprocess(result, script_parts, options, features,
                                      for line in errlines[-10:]))
             output.error_with_banner(errmsg)
 
-        while nfail > 0:
-            nfail -= 1
-            # Doing erriter.next().strip() confuses the 2to3 fixer, so
-            # we need to do it on a separate line. Also, in python 3 this
-            # returns bytes, so we decode it.
-            next_fail = next(erriter)
-            failures.append((next_fail.strip().decode(), None))
-        while nerr > 0:
-            nerr -= 1
-            # Doing erriter.next().strip() confuses the 2to3 fixer, so
-            # we need to do it on a separate line. Also, in python 3 this
-            # returns bytes, so we decode it.
-            next_err = next(erriter)
-            errors.append((next_err.strip().decode(), None))
+        # Only trust a complete report: one line per failure and error
+        # announced by the header, and a newline after the last line.
+        new_failures = []
+        new_errors = []
+        try:
+            if got_header and not stderr_buf[0].endswith(b'\n'):
+                raise StopIteration
+            while nfail > 0:
+                nfail -= 1
+                # Doing erriter.next().strip() confuses the 2to3 fixer, so
+                # we need to do it on a separate line. Also, in python 3 this
+                # returns bytes, so we decode it.
+                next_fail = next(erriter)
+                new_failures.append((next_fail.strip().decode(), None))
+            while nerr > 0:
+                nerr -= 1
+                # Doing erriter.next().strip() confuses the 2to3 fixer, so
+                # we need to do it on a separate line. Also, in python 3 this
+                # returns bytes, so we decode it.
+                next_err = next(erriter)
+                new_errors.append((next_err.strip().decode(), None))
+        except StopIteration:
+            result.num_ran = 0
+            errors.append(("subprocess for %s" % layer_name, None))
+            output.error_with_banner(
+                "Incomplete report from subprocess for %s!" % layer_name)
+        else:
+            failures.extend(new_failures)
+            errors.extend(new_errors)
 
     finally:
         result.done = True
